@@ -851,6 +851,16 @@ def mark_candidates():
                     e["props"][prop] = "cand"
 
 
+def literal_family():
+    # "literal point" harnesses: no symbolic input at all. They exist for operations whose symbolic harnesses are
+    # probes (undecided); each decides the property at a handful of named inputs only - stated as such in the bound.
+    for w in range(16):
+        H("c07_bytes_literal_%d" % w, "h_text::bytes_literals(%d)" % w, Q("C07"), unwind=64, bound="LITERAL POINT: two's complement byte round trip of one literal integer at a word/byte boundary (case %d of 16: +-2^64, -2^72, +-2^128, -(2^128+1), +-2^135, -2^136, +-(2^136-1), -(2^136+1), +-2^143, +-2^192)" % w)
+    H("c14_ord_float_literals", "h_numord::ord_float_literals()", Q("C14"), "i64", unwind=16, bound="LITERAL POINTS: NumOrd of 7 small integers against 9 literal f32/f64 values (fractions, halves, integers, -0.0, NaN)")
+    H("c06_from_float_literals", "h_conv::from_float_literals()", Q("C06"), "i64", unwind=16, bound="LITERAL POINTS: TryFrom<f32/f64> for IBig/UBig on 6 integral and 7 non-integral / non-finite literals")
+    # h_float::ctx_add_literals (C03, not claimed) stays unregistered: see DESIGN 0.3
+
+
 def thin():
     """secondary properties (C15 forms, C17 invariants, C16 panics) ride on the harnesses of the arithmetic
     families; in the quick tier they keep a deterministic quarter of those (all of them in thorough)"""
@@ -884,6 +894,7 @@ def build():
     round_family()
     numord_family()
     buf_family()
+    literal_family()
     # float_family() is NOT registered: every instance ran out of time/memory (DESIGN 0.2 (k)); the bodies in
     # h_float.rs are kept because their native random run (--selftest) exposed a genuine rounding defect
     thin()
